@@ -298,7 +298,7 @@ func planEvent(b band.Band, dev []int) (M, error) {
 	return ev, nil
 }
 
-func (c *ctx) devSet(n int, enabled []int) []int {
+func (c *ctx) devSet(n int, enabled []int, extra bool) []int {
 	in := make([]bool, n)
 	switch c.rnd.Intn(8) {
 	case 0: // exactly the network's enabled channels
@@ -349,6 +349,18 @@ func (c *ctx) devSet(n int, enabled []int) []int {
 			out = append(out, i)
 		}
 	}
+	if extra && c.rnd.Intn(6) == 0 { // dynamic-channel bands: channels the device has enabled but the network's plan does not contain (stale configuration)
+		for k := 0; k < 1+c.rnd.Intn(2); k++ {
+			x := n + c.rnd.Intn(12)
+			dup := false
+			for _, y := range out {
+				dup = dup || y == x
+			}
+			if !dup {
+				out = append(out, x)
+			}
+		}
+	}
 	if c.rnd.Intn(6) == 0 { // unsorted input
 		c.rnd.Shuffle(len(out), func(i, j int) { out[i], out[j] = out[j], out[i] })
 	}
@@ -362,7 +374,7 @@ func (c *ctx) planCase(name band.Name, nsets int, exhaustive bool) error {
 	if err != nil {
 		return err
 	}
-	_, chans, err := planProjection(b)
+	proj0, chans, err := planProjection(b)
 	if err != nil {
 		return err
 	}
@@ -416,7 +428,7 @@ func (c *ctx) planCase(name band.Name, nsets int, exhaustive bool) error {
 		return nil
 	}
 	for k := 0; k < nsets; k++ {
-		ev, err := planEvent(b, c.devSet(n, enabled))
+		ev, err := planEvent(b, c.devSet(n, enabled, proj0["extra"].(bool)))
 		if err != nil {
 			return err
 		}
